@@ -30,6 +30,7 @@ func (c08) Info(tier string) fw.Info {
 			"(containment by the table of Appendix I, token positions from the independent reference lexer), plus culprit-free token soup, random bytes (incl. invalid UTF-8) and statement soup (random mixes of well-typed and ill-typed statements) for well-formedness and rendering only; " +
 			"(2) analyzer diagnostics of single-fault programs with a known culprit range under layout variants (blank lines, unicode comments, indentation, CRLF, multi-byte runes on the same line, continuation lines), in the entry module and in an imported module; " +
 			"(3) runtime failures of accepted programs at known positions (throw, division by zero, negative shift, index out of bounds, unwrap of none, failing cast, assert, JSON errors, cancellation, limits) in main, in called functions, in multi-line constructs and in imported modules, on both backends, " +
+			"plus runtime type validation of host-provided any values (annotated let and `as`; the type written inline, through a local alias, an alias chain, an alias nested in a list/option/object type, an imported alias or a singleton type; values from parse_json, any_func, any_list, any-object members - sampled from the product), " +
 			"observing the fatal interrupt span and the line/column/filename of the error object a catch block prints; for throws the reported span is also compared with the compiled program's source-map entries of the Throw instruction and of the instruction after it. " +
 			"non-trivial = at least one position was produced and monitored in the case; distinct = distinct (kind, payload)",
 		Assumptions: []string{
